@@ -7,3 +7,8 @@ cp /repo/Cargo.lock Cargo.lock
 cargo build --release --offline
 # secondary configuration used by C16/C19 (release profile: no debug assertions, no overflow checks)
 cargo build --profile rel --features lite --offline
+# C19: the case evaluator in its four configurations
+cargo build --release --offline -p dvx
+cargo build --profile rel --offline -p dvx
+RUSTFLAGS='--cfg dashu_verif --cfg force_bits="32"' CARGO_TARGET_DIR="$PWD/target-w32" cargo build --release --offline -p dvx
+CARGO_TARGET_DIR="$PWD/target-nostd" cargo build --release --offline -p dvx --no-default-features
